@@ -795,7 +795,7 @@ Proof.
   assert (Hout : out = map (strip (it_pl it)) (it_ents it)).
   { unfold out. fold it. rewrite drain_read_only; auto.
     - rewrite He. apply inner_ents_keys_nonempty.
-    - unfold it_rest. cbn [it new_iterator it_pos it_ents]. unfold range_entries.
+    - unfold it_rest. cbn [it new_iterator new_iterator_gen it_pos it_ents]. unfold range_entries.
       match goal with |- (length (filter ?f s) < _)%nat => pose proof (filter_len f s) end. lia. }
   rewrite Hout. split; assumption.
 Qed.
@@ -915,7 +915,7 @@ Proof.
   assert (Hne : Forall (fun e : bytes * bytes => fst e <> []) (it_ents it)) by (rewrite He; apply inner_ents_keys_nonempty).
   destruct (seek_read_only it key eq_refl Hsorted_e Hne) as [Hb1 Hd].
   assert (Hlen : (length (it_ents it) <= length s)%nat).
-  { cbn [it new_iterator it_ents]. unfold range_entries. apply filter_len. }
+  { cbn [it new_iterator new_iterator_gen it_ents]. unfold range_entries. apply filter_len. }
   (* the drain fuel: any fuel above the number of snapshot entries gives the same list *)
   assert (Hfuel : drain (S (length s)) (snd r) = drain (S (length (it_ents it))) (snd r)).
   { unfold r. fold it. unfold iter_seek, ldb_seek.
